@@ -1,7 +1,7 @@
 (* C26 -- property theorems for a tree in which finding F7 (Jedynak not odd) is present *)
 From Coq Require Import Reals List.
 From Coquelicot Require Import Coquelicot.
-From C26 Require Import C26Spec C26_gen C26Proofs C26ProofsJ C26ProofsB C26ProofsJNotOdd.
+From C26 Require Import C26Spec C26_gen C26Proofs C26ProofsJ C26ProofsJ2 C26ProofsB C26ProofsB2 C26ProofsB3 C26ProofsJNotOdd.
 Import ListNotations.
 Local Open Scope R_scope.
 
